@@ -45,10 +45,14 @@ def fmt_set(rows):
 # allocator histories on the real class
 
 
+def _drawn_z_of(w):
+    return Wd.drawn_z(w.render((4, 2)))
+
+
 def z_run(next0, free0, ops):
     """ops: ["N"] | ["D", i] (i indexes the live widgets, newest first). → (per-op outputs, hints, final)"""
     Wd.env.reset_env()
-    Wd.env.set_env(name="kitty")
+    Wd.env.set_env(name="kitty", cell_size=(4, 8))
     KittyImage._supported = True
     Wd.reset_class_state(next0, free0)
     live: list = []  # newest first
@@ -58,7 +62,7 @@ def z_run(next0, free0, ops):
             if op[0] == "N":
                 had_free = bool(UrwidImage._ti_free_z_indexes)
                 try:
-                    w = UrwidImage(KittyImage(_IMG))
+                    w = UrwidImage(KittyImage(_IMG), op[1] if len(op) > 1 else "")
                 except UrwidImageError:
                     outs.append("UrwidImageError")
                     hints.append("-")
@@ -77,11 +81,13 @@ def z_run(next0, free0, ops):
         final = (f"next={UrwidImage._ti_next_z_index} free={','.join(map(str, sorted(UrwidImage._ti_free_z_indexes)))} "
                  f"live={','.join(str(w._ti_z_index) for w in reversed(live))}")
         zs = [w._ti_z_index for w in live]
+        # what the live widgets are actually drawn with (a sample of them: rendering costs)
+        drawn = [(w._ti_z_index, _drawn_z_of(w)) for w in live[:6]]
     finally:
         live.clear()
         gc.collect()
         Wd.reset_class_state()
-    return outs, hints, final, zs
+    return outs, hints, final, zs, drawn
 
 
 def z_line(next0, free0, ops, hints):
@@ -228,6 +234,7 @@ def judge(sc, recs):
     W, H = sc["W"], sc["H"]
     sup = sc.get("kitty_supported", True)
     user_cleared = False  # `clear_images(…)` by the user since the last redraw of a new canvas
+    zfail = None  # first drawn-z finding: reported at the end unless a ghost shows up later in the history
     for j, (st, rec) in enumerate(zip(sc["steps"], recs)):
         op, out = rec["op"], rec["out"]
         where = f"step {j} ({op})"
@@ -258,6 +265,19 @@ def judge(sc, recs):
                 return Failure(f"order/{term}", f"{where}: a delete command is written among the rows")
             if rec["exc"]:
                 continue
+            # every kitty widget is drawn with the z-index it holds (the one its deletes use), and the
+            # z-indexes actually drawn are pairwise distinct among widgets
+            by_z: dict = {}
+            for cid, (wid, z, zs) in sorted(rec.get("zdrawn", {}).items()):
+                if zs and zs != [z] and zfail is None:
+                    zfail = Failure(f"drawn-z-differs/{term}",
+                                   f"{where}: widget {wid} (format spec {sc['widgets'][wid].get('fmt', '')!r}) holds z-index "
+                                   f"{z} but its canvas is drawn with z-index(es) {zs}")
+                for dz in zs:
+                    by_z.setdefault(dz, set()).add(wid)
+            dup = {dz: sorted(w) for dz, w in by_z.items() if len(w) > 1}
+            if dup and zfail is None:
+                zfail = Failure(f"drawn-z-shared/{term}", f"{where}: widgets drawn with one z-index: {dup}")
             exp = Wd.expected_placements(rec["canvas"], W, H, term)
             # every image no longer at its previous position is gone before the first row is written
             pre = rec["before"]
@@ -273,7 +293,7 @@ def judge(sc, recs):
             if left and not rec["same"]:
                 return Failure(f"not-deleted-before-draw/{term}",
                                f"{where}: {len(left)} placement(s) that are not in the new canvas survive the deletes, "
-                               f"e.g. {left[0]}")
+                               f"e.g. {left[0]}" + (f" [after: {zfail.what}]" if zfail else ""))
             if rec["same"] and user_cleared:
                 continue  # urwid redraws nothing for an unchanged canvas: the user's explicit clear stands
             user_cleared = False
@@ -286,7 +306,7 @@ def judge(sc, recs):
                 return Failure(f"{kind}/{term}",
                                f"{where}: placements on the terminal differ from the images of the canvas just drawn: "
                                f"{len(extra)} stale, {len(missing)} missing; e.g. {(extra or missing)[0]} "
-                               f"(proto,row,col,cols,rows,z)")
+                               f"(proto,row,col,cols,rows,z)" + (f" [after: {zfail.what}]" if zfail else ""))
         elif op in ("clear", "start", "stop"):
             if rec["exc"]:
                 return Failure(f"{op}-raises/{rec['exc']}", f"{where}: raised {rec['exc']}")
@@ -297,7 +317,7 @@ def judge(sc, recs):
                     return Failure(f"no-clear-on-{op}/{term}", f"{where}: placements survive: {rec['placements'][:2]}")
         elif op == "clear_images":
             user_cleared = True
-    return None
+    return zfail
 
 
 # ------------------------------------------------------------------------------------------
@@ -327,6 +347,30 @@ KNOWN_SCRIPTS = {
                   {"op": "draw", "layout": ["ftext", "hello"]},
                   {"op": "draw", "layout": ["img", 0]},
                   {"op": "draw", "layout": ["fill", "x"]}]},
+    # an image below a trailing shard tail moves purely horizontally (two columns swap)
+    "columns-swap-below-tail": {
+        "term": "kitty", "W": 30, "H": 8, "cell": [4, 8],
+        "widgets": [{"style": "kitty", "iw": 40, "ih": 20, "upscale": True}],
+        "steps": [{"op": "draw", "layout": ["fcols", [
+            [10, ["hpile", [[1, ["fill", "a"]], [None, ["fill", "."]]]]],
+            [10, ["hpile", [[2, ["fill", "b"]], [5, ["img", 0]], [None, ["fill", "."]]]]],
+            [10, ["fill", "c"]]]]},
+            {"op": "draw", "layout": ["fcols", [
+                [10, ["hpile", [[1, ["fill", "a"]], [None, ["fill", "."]]]]],
+                [10, ["fill", "c"]],
+                [10, ["hpile", [[2, ["fill", "b"]], [5, ["img", 0]], [None, ["fill", "."]]]]]]]},
+            {"op": "draw", "layout": ["fcols", [
+                [10, ["hpile", [[1, ["fill", "a"]], [None, ["fill", "."]]]]],
+                [10, ["hpile", [[2, ["fill", "b"]], [5, ["img", 0]], [None, ["fill", "."]]]]],
+                [10, ["fill", "c"]]]]}]},
+    # the z-index field of the format spec is documented as ignored
+    "format-spec-z": {
+        "term": "kitty", "W": 30, "H": 12, "cell": [4, 8],
+        "widgets": [{"style": "kitty", "iw": 40, "ih": 20, "upscale": True},
+                    {"style": "kitty", "iw": 40, "ih": 20, "upscale": True, "fmt": "+z1"}],
+        "steps": [{"op": "draw", "layout": ["hpile", [[5, ["img", 0]], [1, ["fill", "-"]], [5, ["img", 1]], [None, ["fill", "."]]]]},
+                  {"op": "draw", "layout": ["hpile", [[5, ["img", 0]], [1, ["fill", "-"]], [None, ["fill", "."]]]]},
+                  {"op": "draw", "layout": ["hpile", [[5, ["img", 0]], [1, ["fill", "-"]], [5, ["img", 1]], [None, ["fill", "."]]]]}]},
     "konsole-iterm2-scroll": {
         "term": "konsole", "W": 30, "H": 12, "cell": [4, 8],
         "widgets": [{"style": "iterm2", "iw": 40, "ih": 40, "upscale": True}, {"style": "kitty", "iw": 40, "ih": 20}],
@@ -428,17 +472,20 @@ class C18(Property):
                 ops.append(["D", rng.randrange(nlive + (1 if rng.random() < 0.1 else 0))])
                 nlive -= 1 if ops[-1][1] < nlive else 0
             else:
-                ops.append(["N"])
+                ops.append(["N"] + ([G.gen_style_spec(rng)] if rng.random() < 0.3 else []))
                 nlive += 1  # (an allocation that raises leaves a phantom: `D` beyond the end is a no-op)
         return {"next0": next0, "free0": free0, "ops": ops}
 
     def z_case(self, d):
-        outs, hints, final, zs = z_run(d["next0"], d["free0"], d["ops"])
+        outs, hints, final, zs, drawn = z_run(d["next0"], d["free0"], d["ops"])
         line = z_line(d["next0"], d["free0"], d["ops"], hints)
         kind = "z-exhaust" if "UrwidImageError" in outs else ("z-reuse" if any(h not in ("-", None) for h in hints) else "z-fresh")
         fail = None
         if len(set(zs)) != len(zs) or any(not (-LIM < z < LIM) for z in zs):
             fail = Failure("z-index/duplicate-or-out-of-range", f"live z-indexes {zs}")
+        bad = [(z, dz) for z, dz in drawn if dz != [z]]
+        if fail is None and bad:
+            fail = Failure("z-index/drawn-differs", f"widget holding z-index {bad[0][0]} is drawn with {bad[0][1]}")
         self._cache[line] = ("ok " + "|".join(outs) + " " + final, fail)
         return Case(line, {"z": d}, kind, len(d["ops"]) > 1)
 
